@@ -129,6 +129,13 @@ let rec split_on (sep : string) (l : string list) : string list list =
 
 let ni s = n_of_int (int_of_string s)
 
+(* decimal string of any size -> N (f64 bit patterns exceed OCaml's int) *)
+let n_of_dec (s : string) : n =
+  let ten = n_of_int 10 in
+  let acc = ref N0 in
+  String.iter (fun c -> acc := N.add (N.mul !acc ten) (n_of_int (Char.code c - 48))) s;
+  !acc
+
 let gv_of_name (s : string) : n * n =
   Scanf.sscanf s "g%dv%d" (fun g v -> (n_of_int g, n_of_int v))
 
@@ -148,6 +155,15 @@ let encode_header (h : string list) : awheader =
     WPrefixed (g, v, (if prefix = "8" then n_of_int 1 else n_of_int 2), items)
   | ["one"; gv; h] -> let (g, v) = gv_of_name gv in WCountOfOne (g, v, unhex h)
   | ["restart"] -> WClearRestart
+  | ["attr"; set; var; ty; value] ->
+    let big x = n_of_dec x in
+    let v = match ty with
+      | "int" -> let x = int_of_string value in WaInt (n_of_int (if x < 0 then x + 4294967296 else x))
+      | "uint" -> WaUInt (big value)
+      | "vstr" -> WaVStr (unhex value) | "ostr" -> WaOStr (unhex value) | "bstr" -> WaBStr (unhex value)
+      | "f32" -> WaF32 (big value) | "f64" -> WaF64 (big value) | "time" -> WaTime (big value)
+      | _ -> failwith "bad attribute type" in
+    WAttr (ni set, ni var, v)
   | _ -> failwith "bad encode header"
 
 let encode_op (s : script) (o : aopts) (op : string list) : string list =
@@ -158,7 +174,8 @@ let encode_op (s : script) (o : aopts) (op : string list) : string list =
      | AOk bytes -> sp "bytes %s" (hex bytes) :: parse_and_list o "req" bytes
      | AErr WEOverflow -> ["encode-err write-overflow"; "end"]
      | AErr WEBadSeek -> ["encode-err bad-seek"; "end"]
-     | AErr WENumeric -> ["encode-err numeric-overflow"; "end"])
+     | AErr WENumeric -> ["encode-err numeric-overflow"; "end"]
+     | AErr WEAttrLength -> ["encode-err attr-bad-length"; "end"])
   | _ -> failwith "bad encode op"
 
 let run_app_engine (s : script) : string list =
@@ -170,6 +187,7 @@ let run_app_engine (s : script) : string list =
          | AOk _ -> [sp "display %s ok" level; "end"]
          | AErr _ -> [sp "display %s hdr-err" level; "end"])
       | "encode" :: _ -> encode_op s o op
+      | "dbwrite" :: _ -> ["not-modelled"; "end"]   (* the outstation writers are modelled by the db engine *)
       | _ -> failwith "app engine: unknown op") s.ops
 
 let () = register "app" run_app_engine
